@@ -3,6 +3,7 @@ import FluteModel.Recv
 import FluteModel.RecvMini
 import FluteModel.RecvFull
 import FluteModel.RecvWire
+import FluteModel.MultiRecvWire
 /-
   Line-protocol driver of engine `recv` (model side).  `Recv` instantiated with the `Mini` object.
 
@@ -19,6 +20,9 @@ import FluteModel.RecvWire
          agree with it (answer marked ` ABS:fields` / ` ABS:classify` otherwise); same check for rej / tsi lines
     recv cleanup <now> <stale>
     recv isexp <elapsed>                                             -> exp 0|1
+    recv mcfg <me> <mc> <once> <chk> | recv mpkt <now> <hex> <ans..> | recv mcleanup <now>
+         a MultiReceiver (no TSI filtering, no time-outs): answered by agent tsi's `MultiRecv.pushBytes` / `step` over
+         `recvMachine (Full.iface params0)`: <OK|ERR> <nb_objects> <nb_objects_error> s<opened>/<closed> T<tsi>.<event>..
     recv fz ... | recv fzc ... | recv iso <now> <hex,hex..>           -> fz   (opaque robustness ops, not modelled; iso = in a child process)
   answers:  <OK|ERR|PANIC> <nb_objects> <nb_objects_error> <events sorted stably by TOI>
 -/
@@ -30,6 +34,10 @@ structure DState where
   /-- the same receiver with the full object model `ObjRecv` (`RecvFull.lean`): must print the same -/
   st2 : Option (State (Full.Any Full.params0)) := none
   dead : Bool := false
+  /-- `mcfg`: a MultiReceiver = agent tsi's `MultiRecv` over `recvMachine` with the full object model -/
+  mst : Option (MultiRecv.State (MultiRecv.RSess (Full.Any Full.params0)) MultiRecv.ROut) := none
+  mcfg : Config := { maxObjectsError := 0, sessionTimeout := false, objectTimeout := false, maxCache := 0,
+                     receiveOnce := true, expCheck := true }
 
 def init : DState := {}
 
@@ -200,6 +208,37 @@ def stale? (s : String) : Option Stale :=
       else none
     | _ => none
 
+/-! ### MultiReceiver ops: answered by `MultiRecv.step (recvMachine (Full.iface params0) cfg 0)` -/
+
+def mMachine (cfg : Config) := MultiRecv.recvMachine (Full.iface Full.params0) cfg 0
+
+/-- the endpoint every `mpkt` arrives on -/
+def mEp : Flute.Endpoint := ⟨none, 0, 5000⟩
+
+def mCount (s : MultiRecv.State (MultiRecv.RSess (Full.Any Full.params0)) MultiRecv.ROut) : Nat × Nat × Nat × Nat :=
+  ((s.table.map (fun e => e.2.st.objects.length)).foldl (· + ·) 0,
+   (s.table.map (fun e => e.2.st.errors.length)).foldl (· + ·) 0,
+   (s.events.filter (fun e => match e with | .opened _ => true | .closed _ => false)).length,
+   (s.events.filter (fun e => match e with | .closed _ => true | .opened _ => false)).length)
+
+/-- result of the call as `MultiReceiver::push` returns it, counters, listener totals, the writer callbacks of
+    the call tagged with the TSI they carry -/
+def mShow (before after : MultiRecv.State (MultiRecv.RSess (Full.Any Full.params0)) MultiRecv.ROut)
+    (r : MultiRecv.Res) : String :=
+  let outs := MultiRecv.newOuts before after
+  if outs.any (fun o => o.2.res.isNone) then "PANIC" else
+  let res := match r with
+    | .parseErr => "ERR"
+    | .panic => "PANIC"
+    | .done => (match outs.head? with
+                | some o => (match o.2.res with | some .err => "ERR" | _ => "OK")
+                | none => "OK")
+    | _ => "OK"
+  let evs : List (Nat × String) := outs.flatMap (fun o =>
+    o.2.calls.filterMap (fun ke => (showEv ke.2).map (fun x => (x.1, s!"T{ke.1.tsi}.{x.2}"))))
+  let c := mCount after
+  joinSp ([res, toString c.1, toString c.2.1, s!"s{c.2.2.1}/{c.2.2.2}"] ++ (sortStable evs).map (·.2))
+
 /-- the TSI of the engine's receiver -/
 def engineTsi : Nat := 1
 
@@ -231,6 +270,32 @@ def step (d : DState) (args : List String) : DState × String :=
   | "sleep" :: _ => (d, "ok")
   | "mr" :: _ => (d, "ok")
   | "mr2" :: _ => (d, "ok")
+  | ["mcfg", me, mc, once, chk] =>
+    match nat? me, nat? mc, bool? once, bool? chk with
+    | some me, some mc, some once, some chk =>
+      ({ d with mst := some (MultiRecv.State.new false), dead := false,
+                mcfg := { maxObjectsError := me, sessionTimeout := false, objectTimeout := false, maxCache := mc,
+                          receiveOnce := once, expCheck := chk } }, "ok")
+    | _, _, _, _ => (d, "bad-op")
+  | "mpkt" :: now :: hx :: ans =>
+    match d.mst, int? now, ans? ans with
+    | some s, some now, some ans =>
+      if d.dead then (d, "dead") else
+      match MultiRecv.pushBytes (mMachine d.mcfg) (MultiRecv.recvEnv now ans) s mEp ((unhex hx).getD []) with
+      | .error _ => ({ d with dead := true }, "PANIC")
+      | .ok (s', r) =>
+        let line := mShow s s' r
+        ({ d with mst := some s', dead := line = "PANIC" }, line)
+    | _, _, _ => (d, "bad-op")
+  | ["mcleanup", now] =>
+    match d.mst, int? now with
+    | some s, some now =>
+      if d.dead then (d, "dead") else
+      let r := MultiRecv.step (mMachine d.mcfg) s
+        (.cleanup (MultiRecv.envNoPkt now (fun _ => ⟨fun _ => false, fun _ => false⟩)))
+      let line := mShow s r.1 r.2
+      ({ d with mst := some r.1, dead := line = "PANIC" }, line)
+    | _, _ => (d, "bad-op")
   | "cfg" :: me :: st :: ot :: mc :: once :: chk :: _ =>
     match nat? me, bool? st, bool? ot, nat? mc, bool? once, bool? chk with
     | some me, some st, some ot, some mc, some once, some chk =>
